@@ -24,7 +24,7 @@ from vlib import Ctx, bag, plain
 
 ID = "C11"
 LEVEL = "proof"
-MODULES = ["SqlframeModel.Props.C11"]
+MODULES = ["SqlframeModel.Codec.C01", "SqlframeModel.Impl.C11", "SqlframeModel.Props.C11"]
 GEN = ["Operations", "Methods", "Clauses", "Row", "Actions"]
 SOURCES = [
     "SqlframeModel/Props/C11.lean",
@@ -75,6 +75,8 @@ def current_cols(c: dict) -> t.List[str]:
             cols = [s["b"] if x == s["a"] else x for x in cols]
         elif k == "drop":
             cols = [x for x in cols if x not in s["ns"]]
+        elif k == "toDF":
+            cols = list(s["names"])
     return cols
 
 
@@ -226,6 +228,76 @@ def judge(c: dict, impl: dict, o: dict) -> t.Tuple[t.List[str], t.List[str]]:
     return fails, mm
 
 
+def run_dup(c: dict) -> dict:
+    """DataFrames with REPEATED column names (expression joins): every action must still agree with collect()"""
+    import warnings
+
+    from sqlframe.duckdb import functions as F
+
+    out: t.Dict[str, t.Any] = {}
+    try:
+        s = c01.session()
+        l = s.createDataFrame([tuple(r) for r in c["l"]], schema="id bigint, name string")
+        r = s.createDataFrame([tuple(r) for r in c["r"]], schema="id bigint, name string" if c["same_names"] else "id bigint, tag string")
+        j = l.join(r, on=l["id"] == r["id"], how=c["how"])
+        if c["then_limit"]:
+            j = j.limit(50)
+        n = c["n"]
+        C = [[plain(v) for v in row] for row in j.collect()]
+        out["collect"], out["cols"] = C, list(j.columns)
+        out["count"] = j.count()
+        out["isEmpty"] = j.isEmpty()
+        out["head_len"] = len(j.head(n))
+        with warnings.catch_warnings():
+            warnings.simplefilter("ignore")
+            pdf = j.toPandas()
+        out["pandas_cols"] = [str(x) for x in pdf.columns]
+        out["pandas"] = [[plain(_norm(v)) for v in row] for row in pdf.itertuples(index=False, name=None)]
+        at = j.toArrow()
+        out["arrow_cols"] = list(at.column_names)
+        buf = io.StringIO()
+        with contextlib.redirect_stdout(buf):
+            j.show(20)
+        out["show"] = parse_show(buf.getvalue())
+        out["again"] = [[plain(v) for v in row] for row in j.collect()]
+    except Exception as e:  # noqa
+        out["err"] = f"{type(e).__name__}: {str(e)[:300]}"
+    return out
+
+
+def judge_dup(c: dict, impl: dict, unique_cols: t.List[str]) -> t.List[str]:
+    if "err" in impl:
+        return [f"action raised on a DataFrame with repeated column names: {impl['err']}"]
+    fails = []
+    C = impl["collect"]
+    if impl["count"] != len(C):
+        fails.append(f"count()={impl['count']} but collect() has {len(C)} rows")
+    if impl["isEmpty"] != (not C):
+        fails.append("isEmpty() disagrees with collect()")
+    if impl["head_len"] != min(c["n"], len(C)):
+        fails.append(f"head({c['n']}) returned {impl['head_len']} rows of {len(C)}")
+    if impl["pandas_cols"] != impl["cols"] or bag(impl["pandas"]) != bag(C):
+        fails.append(f"toPandas() differs from collect(): {impl['pandas_cols']} {impl['pandas'][:3]} vs {impl['cols']} {C[:3]}")
+    if impl["arrow_cols"] != impl["cols"]:
+        fails.append(f"toArrow() names {impl['arrow_cols']} differ from {impl['cols']}")
+    hdr, rows = impl["show"]
+    if bag(rows) != bag([[cell(v) for v in r] for r in C[:20]]):
+        fails.append(f"show() rows {rows[:3]} are not the collected rows {C[:3]}")
+    if C and hdr != unique_cols:
+        fails.append(f"show() header {hdr} is not the (de-duplicated) column names {unique_cols}")
+    if bag(impl["again"]) != bag(C):
+        fails.append("collect() changed after running the other actions")
+    return fails
+
+
+def gen_dup(rng: random.Random) -> dict:
+    def rows(tagpool):
+        return [[rng.choice([1, 2, 3, None]), rng.choice(tagpool)] for _ in range(rng.randint(0, 4))]
+
+    return {"dup": True, "l": rows(["a", "b", None]), "r": rows(["x", "y", None]), "same_names": rng.random() < 0.7,
+            "how": rng.choice(["inner", "left", "full"]), "then_limit": rng.random() < 0.4, "n": rng.choice([0, 1, 3, 20])}
+
+
 def evaluate(cases: t.List[dict], workers: int = 0) -> t.List[dict]:
     # the header the specification expects: the column names, made unique -- ask the driver for it
     lean_cases = []
@@ -283,10 +355,23 @@ def run(ctx: Ctx) -> None:
             cases.append(c)
     res = evaluate(cases)
 
+    # DataFrames with repeated column names (outside the single-table Lean model: the property itself is checked,
+    # and the header against the Lean `uniqueFieldNames`)
+    dups = [gen_dup(ctx.rng) for _ in range(300 if ctx.thorough else 40)]
+    dimpl = vlib.parallel_map(run_dup, dups)
+    dcols = [im.get("cols", []) for im in dimpl]
+    dout = vlib.run_driver("C11", [{"case": i, "n": 0, "names": cols, "table": {"cols": [], "rows": []}, "steps": []} for i, cols in enumerate(dcols)])
+    dup_viol = []
+    for c, im, o in zip(dups, dimpl, dout):
+        f = judge_dup(c, im, o["unique"])
+        if f:
+            dup_viol.append({"case": c, "failures": f, "implementation": im})
+
     def is_known(r: dict) -> bool:
         # a failure is a known finding iff the model predicts the implementation and every failure is
         # explained by a listed, violated hypothesis
-        if r["mismatch"] or not r["scope"] or not all(h in known for h in r["scope"]):
+        hyps = [h for h in r["scope"] if h.startswith("H_")]  # D_* entries mark theorem coverage, not defects
+        if r["mismatch"] or not hyps or not all(h in known for h in hyps):
             return False
         return all("header" in f for f in r["fails"])
 
@@ -295,7 +380,8 @@ def run(ctx: Ctx) -> None:
         if r["fails"]:
             if is_known(r):
                 for h in r["scope"]:
-                    vlib.report_known(ctx, known[h], known[h]["summary"])
+                    if h in known:
+                        vlib.report_known(ctx, known[h], known[h]["summary"])
             else:
                 new_viol.append(r)
     for h, e in known.items():
@@ -315,6 +401,9 @@ def run(ctx: Ctx) -> None:
             ctx,
             {"kind": "actions disagree", "program": show_case(c), "case": c, "failures": rr["fails"], "implementation": rr["impl"], "model": rr["model"], "violated_scope_hypotheses": rr["scope"], "broken": ctx.broken},
         )
+        reported += 1
+    for v in dup_viol[: max(0, 3 - reported)]:
+        vlib.report_violation(ctx, dict(v, kind="actions disagree on a DataFrame with repeated column names", program=f"l.join(r, l.id == r.id, {v['case']['how']!r})" + (".limit(50)" if v["case"]["then_limit"] else "")))
         reported += 1
     if ctx.broken and not reported:
         vlib.report_violation(
@@ -337,6 +426,7 @@ def run(ctx: Ctx) -> None:
             "ordered_cases": sum(1 for r in res if r["case"]["ordered"]),
             "empty_results": sum(1 for r in res if "err" not in r["impl"] and not r["impl"]["collect"]),
             "n_histogram": {str(k): sum(1 for r in res if r["case"]["n"] == k) for k in (0, 1, 2, 3, 7, 20)},
+            "repeated_column_name_dataframes": len(dups),
             "duplicate_name_lists": sum(1 for r in res if len(set(r["case"]["names"])) != len(r["case"]["names"])),
             "samples": [{"program": show_case(r["case"]), "count": r["impl"].get("count"), "show": r["impl"].get("show")} for r in res[:: max(1, len(res) // 3)][:3]],
         }
@@ -350,6 +440,14 @@ def run(ctx: Ctx) -> None:
 
 def replay(ctx: Ctx, rp: dict) -> None:
     c = rp.get("case")
+    if c and c.get("dup"):
+        im = run_dup(c)
+        o = vlib.run_driver("C11", [{"case": 0, "n": 0, "names": im.get("cols", []), "table": {"cols": [], "rows": []}, "steps": []}])[0]
+        f = judge_dup(c, im, o["unique"])
+        print(json.dumps({"failures": f}, indent=1))
+        if f:
+            vlib.report_violation(ctx, dict(rp, failures=f))
+        return
     if not c:
         print("replay names a broken obligation, not an input:", rp.get("broken"))
         return
